@@ -4,6 +4,7 @@
 //! h2 and rustls, over the simulated network. Mode `e2e` decides C01 (and feeds C13 / C17).
 
 pub mod infra;
+pub mod sniff;
 
 use std::collections::BTreeMap;
 use std::sync::Arc;
